@@ -14,6 +14,7 @@ import OdlModel.Model.Adjoint
 import OdlModel.Lemmas.Adjoint
 import Mathlib.Algebra.Field.Rat
 import Mathlib.Tactic.NormNum.Basic
+import Mathlib.Data.Complex.Basic
 
 open OdlModel.Adjoint Finset
 
@@ -79,23 +80,34 @@ theorem C05.adj_sound_tree (cj : K →+* K) (hcj : ∀ a, cj (cj a) = a) (I : K)
           pb.adj φ (fun h => hφ (Or.inr h)) x _ hx (pa.amaps y hy)]
   | lscal a s iha =>
     intro t' hw ha
-    obtain ⟨wa, hs⟩ := hw
+    obtain ⟨wa, hs, him⟩ := hw
     cases ea : a.adj cj I with
     | none => simp [Impl.adj, ea] at ha
     | some a' =>
-      simp [Impl.adj, ea] at ha; subst ha
       have pa := iha a' wa ea
-      simp only [Impl.dom, Impl.ran, Impl.run, Impl.needRe]
-      refine ⟨fun x hx => mem_smul cj (pa.maps x hx) (fun h => hs (Or.inr (Or.inl h))),
-        fun y hy => mem_smul cj (pa.amaps y hy)
-          (fun h => by rw [hs (Or.inr (Or.inr h))]; exact hs (Or.inr (Or.inr h))), ?_⟩
-      intro φ hφ x y hx hy
-      rw [dot_smul_left, dot_smul_right cj hcj]
-      have := pa.adj (φ.comp (AddMonoidHom.mulLeft s)) (fun h b => by
-        show φ (s * cj b) = φ (s * b)
-        have e : s * cj b = cj (s * b) := by rw [map_mul, hs (Or.inl h)]
-        rw [e, hφ h]) x y hx hy
-      simpa using this
+      by_cases hi : imK cj I (cj s) = 0
+      · -- real scalar: `conj(s) * op.adjoint`
+        have hsr : cj s = s := him hi
+        simp [Impl.adj, ea, hi] at ha; subst ha
+        simp only [Impl.dom, Impl.ran, Impl.run, Impl.needRe]
+        refine ⟨fun x hx => mem_smul cj (pa.maps x hx) hs,
+          fun y hy => mem_smul cj (pa.amaps y hy) (fun _ => by rw [hsr]; exact hsr), ?_⟩
+        intro φ hφ x y hx hy
+        rw [dot_smul_left, dot_smul_right cj hcj]
+        have := pa.adj (φ.comp (AddMonoidHom.mulLeft s)) (fun h b => by
+          show φ (s * cj b) = φ (s * b)
+          have e : s * cj b = cj (s * b) := by rw [map_mul, hsr]
+          rw [e, hφ h]) x y hx hy
+        simpa using this
+      · -- genuinely complex scalar: `OperatorRightScalarMult(op.adjoint, conj(s))`
+        simp [Impl.adj, ea, hi] at ha; subst ha
+        simp only [Impl.dom, Impl.ran, Impl.run, Impl.needRe]
+        have hsy : ∀ y, mem cj a.ran y → mem cj a.ran (fun j i => cj s * y j i) :=
+          fun y hy => mem_smul cj hy (fun h => by rw [hs h]; exact hs h)
+        refine ⟨fun x hx => mem_smul cj (pa.maps x hx) hs,
+          fun y hy => pa.amaps _ (hsy y hy), ?_⟩
+        intro φ hφ x y hx hy
+        rw [← pa.adj φ hφ x _ hx (hsy y hy), dot_smul_left, dot_smul_right cj hcj]
   | rscal a s iha =>
     intro t' hw ha
     obtain ⟨wa, hs⟩ := hw
@@ -106,10 +118,9 @@ theorem C05.adj_sound_tree (cj : K →+* K) (hcj : ∀ a, cj (cj a) = a) (I : K)
       have pa := iha a' wa ea
       simp only [Impl.dom, Impl.ran, Impl.run, Impl.needRe]
       have hsx : ∀ x, mem cj a.dom x → mem cj a.dom (fun j i => s * x j i) :=
-        fun x hx => mem_smul cj hx (fun h => hs (Or.inr (Or.inr h)))
+        fun x hx => mem_smul cj hx hs
       refine ⟨fun x hx => pa.maps _ (hsx x hx),
-        fun y hy => mem_smul cj (pa.amaps y hy)
-          (fun h => by rw [hs (Or.inr (Or.inr h))]; exact hs (Or.inr (Or.inr h))), ?_⟩
+        fun y hy => mem_smul cj (pa.amaps y hy) (fun h => by rw [hs h]; exact hs h), ?_⟩
       intro φ hφ x y hx hy
       rw [pa.adj φ hφ _ y (hsx x hx) hy, dot_smul_left, dot_smul_right cj hcj]
   | lvec a v iha =>
@@ -723,11 +734,16 @@ theorem C05.leaf_sound (cj : K →+* K) (hcj : ∀ a, cj (cj a) = a) (I : K) : L
   | projAdj Q P idx => exact C05.proj_adjoint_adj cj I Q P idx
 
 /-- MAIN THEOREM.  For every expression tree `t` (unbounded depth, all sizes, all weights)
-that is well formed (`WT`: what the ODL constructors check, plus the leaf conditions) and
-whose `.adjoint` the code returns (`adj t = some t'`): `t` maps its domain into its range,
-`t'` maps the range back into the domain, and `φ ⟨t x, y⟩_ran = φ ⟨x, t' y⟩_dom` for all
-`x, y` and every additive `φ` (conjugation-invariant `φ` if the tree contains an operator
-between a real and a complex space).  With `φ = id`: ⟨Ax, y⟩ = ⟨x, A*y⟩. -/
+that is well formed (`Impl.WT`: exactly the checks of the ODL constructors, block operators on
+UNWEIGHTED product spaces, and the leaf conditions `Leaf.WT` — see their docstrings for what
+is excluded) and whose `.adjoint` the code returns (`adj t = some t'`): `t` maps its domain
+into its range, `t'` maps the range back into the domain, and
+`φ ⟨t x, y⟩_ran = φ ⟨x, t' y⟩_dom` for all `x, y` and every additive `φ`
+(conjugation-invariant `φ` if the tree contains an operator between a real and a complex
+space: then only the real-part identity holds, also for complex → complex trees that pass
+through a real space).  With `φ = id`: ⟨Ax, y⟩ = ⟨x, A*y⟩.  Scalars of Left/RightScalarMult
+are arbitrary elements of the field of the range/domain (no extra condition).  For `opaque`
+leaves the statement is conditional on their contract. -/
 theorem C05.adj_sound (cj : K →+* K) (hcj : ∀ a, cj (cj a) = a) (I : K) (t t' : Impl K)
     (hw : t.WT cj I) (ha : t.adj cj I = some t') :
     Pair cj t.needRe t.dom t.ran (t.run cj I) (t'.run cj I) :=
@@ -786,7 +802,10 @@ theorem C05.adj_type_tree (cj : K → K) (I : K) (t : Impl K) :
     intro t' hl ha
     cases ea : a.adj cj I with
     | none => simp [Impl.adj, ea] at ha
-    | some a' => simp [Impl.adj, ea] at ha; subst ha; exact iha a' hl ea
+    | some a' =>
+      simp [Impl.adj, ea] at ha; subst ha
+      by_cases hi : imK cj I (cj s) = 0 <;> simp only [hi, if_true, if_false] <;>
+        exact iha a' hl ea
   | rscal a s iha =>
     intro t' hl ha
     cases ea : a.adj cj I with
@@ -900,7 +919,8 @@ Missing for the full statement: Right scalar / Left / Right vector multiples and
 FunctionalLeftVectorMult (their double adjoint is a different expression class whose equality
 with `A` needs linearity of the operand, resp. the typing of the intermediate adjoint); these
 are covered by the matrix comparison of `A.adjoint.adjoint` with `A` in the harness. -/
-theorem C05.adj_adj_partial (cj : K →+* K) (hcj : ∀ a, cj (cj a) = a) (I : K) (t : Impl K) :
+theorem C05.adj_adj_partial (cj : K →+* K) (hcj : ∀ a, cj (cj a) = a) (I : K)
+    (him : ∀ s, imK cj I (cj s) = 0 → cj s = s) (t : Impl K) :
     ∀ t', t.simpleShape → t.leavesAA cj I → t.adj cj I = some t' →
       ∃ t'', t'.adj cj I = some t'' ∧ t''.run cj I = t.run cj I := by
   induction t with
@@ -936,7 +956,13 @@ theorem C05.adj_adj_partial (cj : K →+* K) (hcj : ∀ a, cj (cj a) = a) (I : K
     | some a' =>
       simp [Impl.adj, ea] at ha; subst ha
       obtain ⟨a'', ha2, ra⟩ := iha a' hs hl ea
-      exact ⟨.lscal a'' (cj (cj s)), by simp [Impl.adj, ha2], by simp [Impl.run, ra, hcj]⟩
+      by_cases hi : imK cj I (cj s) = 0
+      · simp only [hi, if_true]
+        by_cases hi2 : imK cj I (cj (cj s)) = 0
+        · exact ⟨.lscal a'' (cj (cj s)), by simp [Impl.adj, ha2, hi2], by simp [Impl.run, ra, hcj]⟩
+        · exact absurd (by rw [him s hi]; exact hi) hi2
+      · simp only [hi, if_false]
+        exact ⟨.lscal a'' (cj (cj s)), by simp [Impl.adj, ha2], by simp [Impl.run, ra, hcj]⟩
   | rscal a s _ => intro t' hs; exact absurd hs (by simp [Impl.simpleShape])
   | lvec a v _ => intro t' hs; exact absurd hs (by simp [Impl.simpleShape])
   | rvec a v _ => intro t' hs; exact absurd hs (by simp [Impl.simpleShape])
@@ -958,16 +984,80 @@ theorem C05.adj_adj_partial (cj : K →+* K) (hcj : ∀ a, cj (cj a) = a) (I : K
         obtain ⟨r'', hr2, rr⟩ := ihr rest' hs.2 hl.2 er
         exact ⟨.pcons r c a'' r'', by simp [Impl.adj, ha2, hr2], by simp [Impl.run, ra, rr]⟩
 
-/-- Zero and PointwiseInner ↔ PointwiseInnerAdjoint return to the same leaf under a second
-`.adjoint`. -/
-theorem C05.leaf_adj_adj (cj : K →+* K) (hcj : ∀ a, cj (cj a) = a) (I : K) (l : Leaf K)
+/-- `leavesAA` (the leaf hypothesis of `adj_adj_partial`) holds for: Zero, Scaling/Identity,
+Multiply (space and field domain), InnerProduct, MatrixOperator (non-zero real weights),
+PointwiseInner(Adjoint), RealPart (real space, or complex space with real range),
+Flattening.  Not covered (tested through the `AA=` matrix comparison only): the inverse of
+the flattening, ImagPart, ComplexEmbedding, Sampling/WeightedSumSampling, ComponentProjection(Adjoint). -/
+theorem C05.leaf_adj_adj (cj : K →+* K) (hcj : ∀ a, cj (cj a) = a) (I : K)
+    (him : ∀ s, imK cj I (cj s) = 0 → cj s = s) (l : Leaf K)
     (h : match l with
-      | .zero _ _ | .pwInner _ _ _ _ _ | .pwInnerAdj _ _ _ _ _ => True
+      | .zero _ _ | .pwInner _ _ _ _ _ | .pwInnerAdj _ _ _ _ _ | .inner _ _ _
+      | .multField _ _ _ | .scaling _ _ => True
+      | .multiply d r v => r.real = d.real ∧ mem cj d v
+      | .matrix d r _ => (∀ i, d.W 0 i ≠ 0) ∧ (∀ i, r.W 0 i ≠ 0) ∧ realW cj d ∧ realW cj r
+      | .realPart S R => S.real = true ∨ (R.real = true ∧ (2 : K) ≠ 0)
+      | .flatten S _ => (∀ i, S.W 0 i ≠ 0) ∧ realW cj S
       | _ => False) :
     (Impl.leaf l).leavesAA cj I := by
   intro t' ha
-  cases l <;> simp at h <;> simp [Leaf.adj] at ha <;> subst ha <;>
-    simp [Impl.adj, Leaf.adj, Impl.run, Leaf.run, hcj]
+  cases l with
+  | scaling S s =>
+    simp only [Leaf.adj, Option.some.injEq] at ha; subst ha
+    by_cases h1 : imK cj I s = 0
+    · exact ⟨.leaf (.scaling S s), by simp [Impl.adj, Leaf.adj, h1], by simp [Impl.run, h1]⟩
+    · by_cases h2 : imK cj I (cj s) = 0
+      · refine ⟨.leaf (.scaling S (cj s)), by simp [Impl.adj, Leaf.adj, h1, h2], ?_⟩
+        simp [Impl.run, Leaf.run, h1, him s h2]
+      · exact ⟨.leaf (.scaling S (cj (cj s))), by simp [Impl.adj, Leaf.adj, h1, h2],
+          by simp [Impl.run, Leaf.run, h1, hcj]⟩
+  | multiply d r v =>
+    obtain ⟨hr, hv⟩ := h
+    simp only [Leaf.adj, Option.some.injEq] at ha; subst ha
+    by_cases hd : d.real = true
+    · have hr' : r.real = true := by rw [hr]; exact hd
+      exact ⟨.leaf (.multiply d r v), by simp [Impl.adj, Leaf.adj, hd, hr'], by simp [Impl.run, hd]⟩
+    · have hr' : ¬ r.real = true := by rw [hr]; exact hd
+      exact ⟨.leaf (.multiply d r fun j i => cj (cj (v j i))),
+        by simp [Impl.adj, Leaf.adj, hd, hr'], by simp [Impl.run, Leaf.run, hd, hcj]⟩
+  | matrix d r M =>
+    obtain ⟨hd0, hr0, hWd, hWr⟩ := h
+    simp only [Leaf.adj, Option.some.injEq] at ha; subst ha
+    refine ⟨_, by simp only [Impl.adj, Leaf.adj]; rfl, ?_⟩
+    funext x j i
+    simp only [Impl.run, Leaf.run, map_mul, map_div₀, hcj, hWd _ _, hWr _ _]
+    congr 1; funext k
+    have := hd0 k; have := hr0 i
+    field_simp
+  | realPart S R =>
+    simp only [Leaf.adj, Option.some.injEq] at ha; subst ha
+    by_cases hs : S.real = true
+    · exact ⟨.leaf (.realPart S R), by simp [Impl.adj, Leaf.adj, hs], by simp [Impl.run, hs]⟩
+    · obtain ⟨hR, h2⟩ := h.resolve_left hs
+      have e1 : reK cj (1 : K) = 1 := reK_of_real cj (map_one cj) h2
+      refine ⟨.lscal (.leaf (.realPart S R)) (reK cj 1),
+        by simp [Impl.adj, Leaf.adj, hs, hR, e1], ?_⟩
+      funext x j i
+      simp [Impl.run, Leaf.run, hs, e1]
+  | flatten S R =>
+    obtain ⟨h0, hW⟩ := h
+    simp only [Leaf.adj, Option.some.injEq] at ha; subst ha
+    refine ⟨_, by simp only [Impl.adj, Leaf.adj, Option.bind_eq_bind, Option.bind_some,
+      Option.pure_def]; rfl, ?_⟩
+    funext x j i
+    have := h0 i
+    by_cases hr : S.real = true <;>
+      simp [Impl.run, Leaf.run, Impl.ran, Impl.dom, Leaf.ran, Leaf.dom, hr, map_div₀, hW _ _] <;>
+      field_simp
+  | zero d r => simp [Leaf.adj] at ha; subst ha; simp [Impl.adj, Leaf.adj, Impl.run, Leaf.run]
+  | pwInner V X G w v =>
+    simp [Leaf.adj] at ha; subst ha; simp [Impl.adj, Leaf.adj, Impl.run, Leaf.run]
+  | pwInnerAdj X V G w v =>
+    simp [Leaf.adj] at ha; subst ha; simp [Impl.adj, Leaf.adj, Impl.run, Leaf.run]
+  | inner S F v => simp [Leaf.adj] at ha; subst ha; simp [Impl.adj, Leaf.adj, Impl.run, Leaf.run]
+  | multField S F v =>
+    simp [Leaf.adj] at ha; subst ha; simp [Impl.adj, Leaf.adj, Impl.run, Leaf.run]
+  | _ => exact absurd h (by simp)
 
 end
 
@@ -1007,5 +1097,82 @@ example :
     refine ⟨⟨⟨⟨by simp, by simp⟩, by simp⟩, ⟨trivial, by intro _ j i; simp⟩, trivial, trivial⟩,
       ⟨rfl, rfl, fun _ => by norm_num, fun _ _ => rfl, fun _ _ => rfl, trivial, by simp⟩, trivial⟩
   · simp [t, Impl.needRe, Leaf.needRe]
+
+/-- Non-vacuity of `adj_adj_partial` + `leaf_adj_adj`: for the concrete weighted tree
+`3·MatrixOperator(M) + 2·Id` on `rn(2, weighting=1/2)` the second adjoint exists and acts
+like the tree. -/
+example :
+    let S : Space ℚ := ⟨1, fun _ => 2, fun _ _ => 1 / 2, true⟩
+    let t : Impl ℚ := .sum (.lscal (.leaf (.matrix S S fun i k => (i : ℚ) - 2 * k)) 3)
+      (.leaf (.scaling S 2))
+    ∀ t', t.adj (RingHom.id ℚ) 0 = some t' →
+      ∃ t'', t'.adj (RingHom.id ℚ) 0 = some t'' ∧
+        t''.run (RingHom.id ℚ) 0 = t.run (RingHom.id ℚ) 0 := by
+  intro S t t' h
+  have him : ∀ s : ℚ, imK (RingHom.id ℚ) 0 ((RingHom.id ℚ) s) = 0 → (RingHom.id ℚ) s = s :=
+    fun _ _ => rfl
+  exact C05.adj_adj_partial (RingHom.id ℚ) (fun _ => rfl) 0 him t t' ⟨trivial, trivial⟩
+    ⟨C05.leaf_adj_adj (RingHom.id ℚ) (fun _ => rfl) 0 him (.matrix S S _)
+        ⟨fun _ => by norm_num, fun _ => by norm_num, fun _ _ => rfl, fun _ _ => rfl⟩,
+      C05.leaf_adj_adj (RingHom.id ℚ) (fun _ => rfl) 0 him (.scaling S 2) trivial⟩ h
+
+end
+
+/-! ### non-vacuity over ℂ: a tree mixing real and complex spaces under a complex scalar -/
+
+noncomputable section
+open OdlModel.Adjoint Classical
+
+/-- `WT` is satisfiable for a `needRe` tree with a genuinely complex scalar node over ℂ with
+complex conjugation: `2i · (ComplexEmbedding(rn(2)) ∘ RealPart(cn(2)))` on spaces weighted
+by 1/2 — the operator of the repaired defect 8305fd0.  `adj_sound` therefore applies to it. -/
+example :
+    let cjC : ℂ →+* ℂ := starRingEnd ℂ
+    let R : Space ℂ := ⟨1, fun _ => 2, fun _ _ => 1 / 2, true⟩
+    let C : Space ℂ := ⟨1, fun _ => 2, fun _ _ => 1 / 2, false⟩
+    let t : Impl ℂ := .lscal (.comp (.leaf (.cembed R C 1)) (.leaf (.realPart C R))) (2 * Complex.I)
+    t.WT cjC Complex.I ∧ t.needRe ∧ (t.adj cjC Complex.I).isSome = true := by
+  intro cjC R C t
+  have h2 : (2 : ℂ) ≠ 0 := by norm_num
+  have hW : ∀ S : Space ℂ, (∀ j i, S.W j i = 1 / 2) → realW cjC S := by
+    intro S h j i; rw [h]; simp [cjC, map_ofNat]
+  refine ⟨⟨⟨⟨rfl, fun _ => ⟨hW R (fun _ _ => rfl), h2, ⟨Complex.I_mul_I, Complex.conj_I⟩⟩⟩,
+    ⟨rfl, hW C (fun _ _ => rfl), h2⟩, rfl⟩, fun h => by simp [Impl.ran, Leaf.ran, C] at h, ?_⟩,
+    ?_, ?_⟩
+  · intro h
+    exfalso
+    simp only [imK, cjC, map_mul, Complex.conj_I, map_ofNat] at h
+    rw [map_neg, Complex.conj_I, neg_neg] at h
+    have e : (2 * Complex.I - 2 * -Complex.I) * Complex.I / 2 = -2 := by
+      have : (2 * Complex.I - 2 * -Complex.I) * Complex.I = 4 * (Complex.I * Complex.I) := by ring
+      rw [this, Complex.I_mul_I]; norm_num
+    rw [e] at h; norm_num at h
+  · simp [t, Impl.needRe, Leaf.needRe, R, C]
+  · simp only [t, Impl.adj, Leaf.adj, R, C]
+    have e1 : reK (⇑cjC) (1 : ℂ) = 1 := by simp [reK, cjC]
+    simp [e1, Option.bind]
+
+/-- Sensitivity (the repaired defect 8305fd0, on the model over ℂ): the OLD rule
+`OperatorLeftScalarMult(A, s).adjoint = conj(s)·A*` violates even the real-part identity when
+`A*` is only real-linear: for `A = ComplexEmbedding ∘ RealPart` on one complex entry, `s = i`,
+`x = 1`, `y = i`:  Re⟨i·A x, y⟩ = 1 but Re⟨x, conj(i)·A* y⟩ = 0.  (The rule now coded,
+`A*(conj(s)·y)`, is covered by `adj_sound`.) -/
+theorem C05.old_lscal_adj_fails :
+    let cjC : ℂ →+* ℂ := starRingEnd ℂ
+    let R : Space ℂ := ⟨1, fun _ => 1, fun _ _ => 1, true⟩
+    let C : Space ℂ := ⟨1, fun _ => 1, fun _ _ => 1, false⟩
+    -- a = ComplexEmbedding(R) ∘ RealPart(C): x ↦ Re x, with the adjoint a' the code returns
+    let a : Impl ℂ := .comp (.leaf (.cembed R C 1)) (.leaf (.realPart C R))
+    ∃ a', a.adj cjC Complex.I = some a' ∧
+      (dot cjC C ((Impl.lscal a Complex.I).run cjC Complex.I fun _ _ => 1)
+        (fun _ _ => Complex.I)).re ≠
+      (dot cjC C (fun _ _ => 1)
+        ((Impl.lscal a' (cjC Complex.I)).run cjC Complex.I fun _ _ => Complex.I)).re := by
+  intro cjC R C a
+  have e1 : reK (⇑cjC) (1 : ℂ) = 1 := by simp [reK, cjC]
+  have e0 : imK (⇑cjC) Complex.I (1 : ℂ) = 0 := by simp [imK, cjC]
+  refine ⟨_, by simp [a, Impl.adj, Leaf.adj, R, C, e1]; rfl, ?_⟩
+  simp [dot, sumTo, Impl.run, Leaf.run, R, C, e1, e0, reK, cjC]
+  simp [a, Impl.run, Leaf.run, R, C, reK, imK]
 
 end
